@@ -123,7 +123,10 @@ func parserInput(pi *parserInfo) ssa.Value {
 
 // sliceRoot follows reslices (and phis that only merge reslices of the same root).
 func sliceRoot(v ssa.Value) ssa.Value {
-	seen := map[ssa.Value]bool{}
+	return sliceRootSeen(v, map[ssa.Value]bool{})
+}
+
+func sliceRootSeen(v ssa.Value, seen map[ssa.Value]bool) ssa.Value {
 	for v != nil && !seen[v] {
 		seen[v] = true
 		switch x := v.(type) {
@@ -134,10 +137,13 @@ func sliceRoot(v ssa.Value) ssa.Value {
 			var r ssa.Value
 			same := true
 			for _, e := range x.Edges {
-				if e == ssa.Value(x) {
+				if e == ssa.Value(x) || seen[e] {
+					continue // a loop-carried reslice of the same thing
+				}
+				er := sliceRootSeen(e, seen)
+				if er == ssa.Value(x) {
 					continue
 				}
-				er := sliceRoot(e)
 				if r == nil {
 					r = er
 				} else if r != er {
@@ -271,15 +277,29 @@ func classifyConsumeLoop(h *ssa.BasicBlock, body map[*ssa.BasicBlock]bool, input
 			continue
 		}
 		var init, step ssa.Value
+		var inits []ssa.Value
 		for i, e := range phi.Edges {
 			if body[h.Preds[i]] {
 				step = e
 			} else {
-				if init != nil && init != e {
-					init = nil
-					break
+				inits = append(inits, e)
+			}
+		}
+		if len(inits) == 1 {
+			init = inits[0]
+		} else if len(inits) > 1 {
+			// several ways into the loop: they must agree, or all be decoder results
+			same, allN := true, true
+			for _, e := range inits {
+				if e != inits[0] {
+					same = false
 				}
-				init = e
+				if !isTransformNSrc(e, 0) {
+					allN = false
+				}
+			}
+			if same || allN {
+				init = inits[0]
 			}
 		}
 		if init == nil || step == nil {
@@ -315,10 +335,8 @@ func classifyConsumeLoop(h *ssa.BasicBlock, body map[*ssa.BasicBlock]bool, input
 				}
 				if cmp.Op == token.GTR && z == 0 {
 					// runs init times: init must be Transform's nSrc
-					if ex, ok := init.(*ssa.Extract); ok && ex.Index == 1 {
-						if call, ok := ex.Tuple.(*ssa.Call); ok && call.Call.IsInvoke() && call.Call.Method.Name() == "Transform" {
-							return "decoder", "reads as many bytes as the decoder reports consumed (nSrc)"
-						}
+					if isTransformNSrc(init, 0) {
+						return "decoder", "reads as many bytes as the decoder reports consumed (nSrc)"
 					}
 					if isRangeIndexOver(init, input) {
 						return "", "countdown `> 0` from the scan index reads one byte fewer than the match"
@@ -608,4 +626,27 @@ func checkChunkOwnership(c *Ctx, p *Prog, rule string) {
 	if n == 0 {
 		c.Undecided(rule, "chunk-channel", "-", "no send of a byte slice over a channel found (the input hand-over was expected)")
 	}
+}
+
+// isTransformNSrc: v is the nSrc result of a Transformer.Transform call (or a merge of such results).
+func isTransformNSrc(v ssa.Value, d int) bool {
+	if d > 3 {
+		return false
+	}
+	switch x := v.(type) {
+	case *ssa.Extract:
+		if x.Index == 1 {
+			if call, ok := x.Tuple.(*ssa.Call); ok && call.Call.IsInvoke() && call.Call.Method.Name() == "Transform" {
+				return true
+			}
+		}
+	case *ssa.Phi:
+		for _, e := range x.Edges {
+			if !isTransformNSrc(e, d+1) {
+				return false
+			}
+		}
+		return len(x.Edges) > 0
+	}
+	return false
 }
